@@ -20,6 +20,10 @@ CHECKS = {
          "two seeded SimPool schedules, address-hash order) in two interpreters with different PYTHONHASHSEED; all signatures must agree with "
          "each other and the model; get_subgraphs checked to be an exact edge-closed partition",
          "deterministic simulation: one program under many seeded schedules (linear extensions, sub-graph dispatch, SimPool interleavings, hash seeds); signature equality + reference model"),
+ "C12": ("w1r", "3.C12", "generated rule sets (shared modules/keys/types, every return kind and constructor-argument shape, payloads around "
+         "the size limit) under the real SingleEvaluator / InsightsEvaluator / JsonFormat, serial, incremental and on SimPool with seeded "
+         "interleavings traced through evaluators.py; counting oracle: each rule in exactly the predicted bucket, entry fields, totals",
+         "deterministic simulation: seeded SimPool interleavings of the evaluator observer + fault plans on rule bodies; exactly-one-outcome accounting against the reference model"),
 }
 NA = [
   ("C13", "pure function of two (epoch, version, release) strings; no schedule, clock, fault or history for a simulator to own (DESIGN.md section 5)"),
@@ -31,6 +35,7 @@ NA = [
   ("C20", "query evaluation is a pure function of (tree, query, options) (DESIGN.md section 5)"),
 ]
 ENGINES = {
+ "w1r": ("worlds/w1_rules.py", "W1r: real evaluators/formatters over W1 programs with rich rule return plans; insights.get_pool -> SimPool"),
  "w1": ("worlds/w1_engine.py", "W1: real dr/plugins engine on generated component programs under SimPool / SimClock / SimSignal with a reference model"),
 }
 PENDING = dict((p, "check not built yet in this revision of /verif (planned: DESIGN.md section 3); not claimed until it runs clean and is sensitivity-tested")
